@@ -39,6 +39,9 @@ unsafe extern "C" {
     fn redirectionio_api_buffer_drop(b: Buffer);
     fn redirectionio_api_get_rule_api_version() -> *const c_char;
     fn redirectionio_log_init_with_callback(cb: extern "C" fn(*const c_char, *const std::os::raw::c_void, i16), data: *const std::os::raw::c_void);
+    fn redirectionio_trusted_proxies_create(s: *const c_char) -> *const std::os::raw::c_void;
+    fn redirectionio_trusted_proxies_add_proxy(tp: *mut std::os::raw::c_void, s: *const c_char);
+    fn redirectionio_request_set_remote_addr(r: *mut Request, addr: *const c_char, tp: *const std::os::raw::c_void);
     fn redirectionio_api_create_log_in_json(r: *mut Request, code: u16, hm: *const HM, a: *mut Action, proxy: *const c_char, time: u64, ip: *const c_char) -> *const c_char;
 }
 
@@ -315,6 +318,45 @@ fn run_program(ops: &[Value]) -> (bool, Vec<String>) {
                 }
                 w.requests.insert(id, p);
             }
+            "proxies" => {
+                // the trusted-proxies handle: created from a list, extended one entry at a time (entries that do not parse are
+                // skipped with a warning and must leave the handle usable), used to compute the client address of a live
+                // request, compared with the native computation.  The library has no release entry point for the handle
+                // (it lives as long as the host): the harness releases its two boxes itself, so that the audit of the
+                // program stays exact (#[repr(C)] struct TrustedProxies(*mut ()) = one pointer to a boxed Config).
+                let Some(&rp) = w.requests.get(&o["req"].as_u64().unwrap()) else { continue };
+                let create = o["create"].as_str().map(|s| CString::new(s).unwrap());
+                let tp = unsafe { redirectionio_trusted_proxies_create(create.as_ref().map(|c| c.as_ptr()).unwrap_or(std::ptr::null())) } as *mut std::os::raw::c_void;
+                if tp.is_null() { w.same = false; w.notes.push("trusted proxies null".into()); continue; }
+                let mut native = trusted_proxies::Config::default();
+                if let Some(c) = o["create"].as_str() { for x in c.split(',') { let x = x.trim(); if !x.is_empty() { let _ = native.add_trusted_ip(x); } } }
+                for a in o["adds"].as_array().unwrap() {
+                    let a = a.as_str().unwrap();
+                    let c = CString::new(a).unwrap();
+                    unsafe { redirectionio_trusted_proxies_add_proxy(tp, c.as_ptr()) };
+                    let _ = native.add_trusted_ip(a);
+                }
+                unsafe { redirectionio_trusted_proxies_add_proxy(tp, std::ptr::null()) };
+                unsafe { redirectionio_trusted_proxies_add_proxy(std::ptr::null_mut(), std::ptr::null()) };
+                for addr in o["addrs"].as_array().unwrap() {
+                    let addr = addr.as_str().unwrap();
+                    let c = CString::new(addr).unwrap();
+                    let before = unsafe { &*rp }.remote_addr;
+                    unsafe { redirectionio_request_set_remote_addr(rp, c.as_ptr(), if o["null_tp"] == json!(true) { std::ptr::null() } else { tp as *const _ }) };
+                    let got = unsafe { &*rp }.remote_addr;
+                    let want = match addr.parse::<redirectionio::http::Addr>() {
+                        Err(_) => before,
+                        Ok(a) => { let dflt = trusted_proxies::Config::default(); let cfg = if o["null_tp"] == json!(true) { &dflt } else { &native };
+                                   Some(trusted_proxies::Trusted::from(a.addr, unsafe { &*rp }, cfg).ip()) }
+                    };
+                    if got != want { w.same = false; w.notes.push(format!("remote address {:?} instead of {:?} for {}", got, want, addr)); }
+                }
+                unsafe {
+                    let cfg = *(tp as *const *mut trusted_proxies::Config);
+                    drop(Box::from_raw(cfg));
+                    drop(Box::from_raw(tp as *mut *mut ()));
+                }
+            }
             "request_drop" => { if let Some(p) = w.requests.remove(&id) { unsafe { redirectionio_request_drop(p) }; } }
             "bad_json" => {
                 // malformed documents: null results, and an error line through the host's log callback (which owns and
@@ -391,7 +433,13 @@ pub fn gen_program(rng: &mut Rng) -> Value {
                 let r = fresh();
                 let from_str = rng.chance(1, 3);
                 ops.push(json!({"op": "request", "id": r, "how": if from_str { "from_str" } else { "create" }, "uri": if from_str { *rng.pick(&["/x", "/x?a=1&utm_source=z", "https://example.org/x"]) } else { *rng.pick(&["/x", "/x?a=1&utm_source=z", "/é b", "https://example.org/x"]) },
-                                "host": if rng.chance(1, 2) { json!("example.org") } else { Value::Null }, "headers": if rng.chance(1, 2) { json!([["X-A", "1"], ["x-a", ""], ["Accept", "é"]]) } else { json!([]) }}));
+                                "host": if rng.chance(1, 2) { json!("example.org") } else { Value::Null }, "headers": match rng.below(3) { 0 => json!([["X-A", "1"], ["x-a", ""], ["Accept", "é"]]), 1 => json!([["X-Forwarded-For", "8.8.8.8, 10.0.0.9"], ["Forwarded", "for=9.9.9.9;proto=https"]]), _ => json!([]) }}));
+                if rng.chance(1, 2) {
+                    let n = rng.below(4);
+                    let adds: Vec<Value> = (0..n).map(|_| json!(*rng.pick(&["192.168.1.1", "10.1.0.0/16", "bogus", "300.1.1.1", "", "::1", "10.0.0.0/33"]))).collect();
+                    let addrs: Vec<Value> = (0..1 + rng.below(2)).map(|_| json!(*rng.pick(&["10.1.2.3", "10.1.2.3:8080", "8.8.8.8", "[::1]:443", "nope", "192.168.1.1"]))).collect();
+                    ops.push(json!({"op": "proxies", "req": r, "create": match rng.below(4) { 0 => Value::Null, 1 => json!("10.0.0.0/8, bogus ,, 192.168.0.0/16"), 2 => json!(""), _ => json!("10.0.0.0/8") }, "adds": adds, "addrs": addrs, "null_tp": rng.chance(1, 5)}));
+                }
                 ops.push(json!({"op": "request_drop", "id": r}));
             }
             3 => { if rng.chance(1, 2) { ops.push(json!({"op": "nulls"})); } else { ops.push(json!({"op": "bad_json", "text": *rng.pick(&["{", "nope", "{\"rule_ids\": 3}", ""])})); } }
